@@ -76,6 +76,17 @@ CHECKS = {
         "components": {"real": REAL + ["post-solve hook (constraint/verifhook, -tags verif) hands the solved vectors to the harness"], "stub": ["the wire between prover and verifier (harness transport over the real serialised bytes)", "entropy source (keyed PRF)", "prover memory under fault (one solved wire / trace cell overwritten)"]},
         "assumptions": ["single-element edits and recombinations of available elements only: forgeries that need new algebra are the cryptographic assumption itself", "points outside the prime-order subgroup are not generated", "legitimacy of an accepted altered statement is decided by the program evaluator with the session's secret inputs"],
     },
+    "C09": {
+        "engine": "c09",
+        "level": "exploration",
+        "rule": "one evaluation = one oracle clause (byte count, re-encoding identity, behavioural equality, fault reported) on one artefact; a case = (backend, curve, generated circuit, artefact in "
+                "{ccs, pk, vk, proof, witness, public witness}, encoding in {WriteTo, WriteRawTo, WriteDump}, safe/unsafe reader, scenario in {round trip under chunking, write fault, read fault / truncation, concurrent decoders + solve under the scheduler})",
+        "quick": {"runs": 960, "budget_s": 200, "selftest_runs": 6, "params": {"slots": 24}},
+        "thorough": {"runs": 40000, "budget_s": 2400, "race_runs": 800, "race_budget_s": 900, "selftest_runs": 8, "params": {"slots": 64}},
+        "expect_probes": ["artefact:ccs", "artefact:pk", "artefact:vk", "artefact:proof", "artefact:witness", "encoding:WriteRawTo/ReadFrom", "encoding:WriteDump/ReadDump", "write_error", "read_error", "truncation"],
+        "components": {"real": REAL, "stub": STUB_SCHED + ["stream sink / source (simulated disk: chunking, EOF-with-data, write errors, short writes, read errors, truncation)"]},
+        "assumptions": ["behavioural equality is sampled on the fixture's witness pool", "GKR metadata is not produced by the generator"],
+    },
     "C06": {
         "engine": "c06",
         "level": "exploration",
